@@ -139,6 +139,13 @@ def public_operations(ctx):
                 continue
             seen.add(('fn', fi.qualname))
             ops.append((n, fi))
+    # the statistics library (percentile is part of C08's reductions; quantile is its sibling)
+    lib = P.modules.get('dimarray.lib.stats')
+    if lib is not None:
+        for n, fi in sorted(lib.functions.items()):
+            if not n.startswith('_') and ('fn', fi.qualname) not in seen:
+                seen.add(('fn', fi.qualname))
+                ops.append(('lib.stats.' + n, fi))
     return ops
 
 
